@@ -4,6 +4,7 @@ package main
 
 import (
 	"fmt"
+	"math"
 	"go/types"
 	"net"
 	"net/textproto"
@@ -21,6 +22,46 @@ func (i *interpreter) recordJSON(kind string, v value) int {
 	l = append(l, jsonRec{kind, v})
 	i.side["json"] = l
 	return len(l)
+}
+
+// jsonUnsupported: a value encoding/json refuses - a concrete NaN or infinite
+// float anywhere inside it (json: unsupported value). Symbolic floats are taken
+// as finite (stated in DESIGN.md 9.1).
+func jsonUnsupported(v value, depth int) bool {
+	if depth > 12 {
+		return false
+	}
+	switch x := v.(type) {
+	case float64:
+		return math.IsNaN(x) || math.IsInf(x, 0)
+	case float32:
+		return math.IsNaN(float64(x)) || math.IsInf(float64(x), 0)
+	case iface:
+		return x.t != nil && jsonUnsupported(x.v, depth+1)
+	case []value:
+		for _, e := range x {
+			if jsonUnsupported(e, depth+1) {
+				return true
+			}
+		}
+	case structure:
+		for _, e := range x {
+			if jsonUnsupported(e, depth+1) {
+				return true
+			}
+		}
+	case *omap:
+		if x != nil {
+			for _, e := range x.entries {
+				if !e.deleted && jsonUnsupported(e.val, depth+1) {
+					return true
+				}
+			}
+		}
+	case *value:
+		return x != nil && jsonUnsupported(*x, depth+1)
+	}
+	return false
 }
 
 func headerMap(v value) *omap {
@@ -48,6 +89,9 @@ func init() {
 	}
 	externals["(*encoding/json.Encoder).Encode"] = func(fr *frame, a []value) value {
 		i := fr.i
+		if jsonUnsupported(a[1], 0) {
+			return i.newError("json: unsupported value: NaN or Inf", nil)
+		}
 		n := i.recordJSON("encode", a[1])
 		p := a[0].(*value)
 		w := (*p).(structure)[0]
@@ -61,6 +105,9 @@ func init() {
 	externals["(*encoding/json.Encoder).SetIndent"] = nop
 	externals["(*encoding/json.Encoder).SetEscapeHTML"] = nop
 	externals["encoding/json.Marshal"] = func(fr *frame, a []value) value {
+		if jsonUnsupported(a[0], 0) {
+			return tuple{[]value(nil), fr.i.newError("json: unsupported value: NaN or Inf", nil)}
+		}
 		n := fr.i.recordJSON("marshal", a[0])
 		return tuple{valBytes([]byte(fmt.Sprintf("<json#%d>", n))), iface{}}
 	}
